@@ -88,6 +88,9 @@ structure World where
   getpassLines : List String := []
   /-- what `os.urandom(32)` returns for the seed -/
   seed : Bytes := []
+  /-- what `pubkeys -o` has written: (number of key lines in the text file, JSON file written);
+      `none`: the output files were not touched -/
+  pubkeyFiles : Option (Nat × Bool) := none
   deriving Repr, Inhabited
 
 structure Res (α : Type) where
